@@ -155,7 +155,10 @@ func applyMutation(tree any, nodeIdx int, kind string, variant int) (desc string
 		if !isStr {
 			return "", false
 		}
-		alts := []string{"NoSuchObject", "", s + "x", "root", "(unclosed", "{not json", "[1,", "_type", strings.Repeat("z", 300)}
+		alts := []string{"NoSuchObject", "", s + "x", "root", "(unclosed", "{not json", "[1,", "_type", strings.Repeat("z", 300),
+			// texts that are awkward as JSON-encoded default values: quotes, backslashes, control characters,
+			// well-formed numbers no float64 can hold
+			`say "hi"`, `"`, `C:\dir`, `a\`, "line1\nline2", "\x01", "1e400", "-1e999", `"unterminated`, "null", "[]"}
 		n.set(alts[variant%len(alts)])
 	case "nil":
 		n.set(nil)
